@@ -21,7 +21,7 @@ from fractions import Fraction
 import numpy as rnp
 
 from .common import *  # noqa
-from ._ekobox import explore, cleanup_markers, symarr, prove_all_zero, prove_concrete, getv, decide, lift
+from ._ekobox import explore, cleanup_markers, symarr, prove_all_zero, prove_concrete, getv, decide, lift, AbsNumpy
 from symx.solver import prove_zero
 from symx import harness as H
 
@@ -138,7 +138,7 @@ def _unit(p):
 
 # ---------------------------------------------------------------------------
 def case_helpers(log):
-    fl = sym_module("ekobox.genpdf.flavors")
+    fl = sym_module("ekobox.genpdf.flavors", np=AbsNumpy())  # abs() (if the code ever takes one) as an atom: no sign forks
     log.encode(fl.pid_to_flavor, fl.evol_to_flavor)
     from eko import basis_rotation as br
 
@@ -165,7 +165,7 @@ def case_helpers(log):
 
 def case_labels(log, basis, selections, nnodes, tag):
     """basis 'pid' | 'evol'; selections: list of index tuples into PIDS / EVOL"""
-    fl = sym_module("ekobox.genpdf.flavors")
+    fl = sym_module("ekobox.genpdf.flavors", np=AbsNumpy())  # abs() (if the code ever takes one) as an atom: no sign forks
     log.encode(fl.project, fl.pid_to_flavor, fl.evol_to_flavor)
     seed0 = log.rng.randint(0, 10**9)
 
@@ -243,7 +243,7 @@ def _unit_i(i):
 
 
 def case_custom(log, kind, nnodes):
-    fl = sym_module("ekobox.genpdf.flavors")
+    fl = sym_module("ekobox.genpdf.flavors", np=AbsNumpy())  # abs() (if the code ever takes one) as an atom: no sign forks
     log.encode(fl.project)
     seed0 = log.rng.randint(0, 10**9)
 
